@@ -24,7 +24,7 @@ def make_message(tag, device, policy, reuse_key=None):
     if tag == "enableBLOB" and reuse_key is not None and reuse_key in _REUSED:
         m = _REUSED[reuse_key]
         m.device = device
-        m.value = policy or "Never"
+        m.value = comp_codec.fresh(policy or "Never")
         return m
     m = _make_message(tag, device, policy)
     if tag == "enableBLOB" and reuse_key is not None:
@@ -36,9 +36,9 @@ def _make_message(tag, device, policy):
     cls, base, optional, child, vkind = comp_codec.MSGS[tag]
     kw = dict(base)
     if "device" in kw or tag in ("getProperties", "message"):
-        kw["device"] = device
+        kw["device"] = comp_codec.fresh(device)
     if tag == "enableBLOB":
-        kw["value"] = policy or "Never"
+        kw["value"] = comp_codec.fresh(policy or "Never")      # as a parser hands it over: equal to the constant, not the same object
     elif vkind:
         kw["value"] = comp_codec.VALUE_OF_KIND[vkind][0]
     return comp_codec.cls_by_name(cls)(**kw)
